@@ -8,6 +8,7 @@
 #![allow(clippy::type_complexity, clippy::too_many_arguments)]
 
 mod num;
+mod obsbackend;
 mod prng;
 mod props;
 mod rangew;
